@@ -505,8 +505,11 @@ def P8(m, R):
         R.check(not bad and n > 0, f, lp, 'the cursor strictly advances on all %d paths through the body' % n,
                 'a path through the body does not advance the cursor (delta %s %s %s)' % ((bad[0][1], bad[0][2], bad[0][3]) if bad else ('', '', '')),
                 construct=cons, witness=_path_text(bad[0][0], 12) if bad else None)
-    # (2) scrubber integer-run loop
-    f = m.fn('%s.%s' % (ro.POINT, ro.SCRUB))
+    # (2) scrubber integer-run loop (in the scrubber or in a private helper it calls)
+    from ..shapes import with_helpers
+    f0 = m.fn('%s.%s' % (ro.POINT, ro.SCRUB))
+    hosts = [g_ for g_ in with_helpers(m, f0, 1) if any(isinstance(n, ast.While) for n in g_.walk())]
+    f = hosts[0] if hosts else f0
     cfg = CFG(f.node, f.body)
     for lp in [n for n in f.walk() if isinstance(n, ast.While)]:
         t = lp.test
